@@ -107,7 +107,8 @@ pub fn check(v: &View, vd: &mut Verdict) {
             }
         }
         // timers keep firing: interval timers (forcing path) tick exactly every period while the actor lives
-        let mut timers: BTreeMap<usize, (u64, u64, u64, Vec<u64>)> = BTreeMap::new(); // timer -> (reg stamp, reg time, period, creation times)
+        // (a restart aborts the timers of the incarnation that ends: each timer is judged up to then)
+        let mut timers: BTreeMap<usize, (u64, u64, u64, Vec<(u64, u64)>)> = BTreeMap::new(); // timer -> (reg stamp, reg time, period, creations (stamp, time))
         for e in v.hist {
             match &e.kind {
                 EvKind::TimerReg { actor, timer, kind: TimerKind::Interval, ticks, .. } if *actor == a => {
@@ -115,20 +116,21 @@ pub fn check(v: &View, vd: &mut Verdict) {
                 }
                 EvKind::TickCreated { actor, timer, .. } if *actor == a => {
                     if let Some(t) = timers.get_mut(timer) {
-                        if e.stamp < limit {
-                            t.3.push(e.time);
-                        }
+                        t.3.push((e.stamp, e.time));
                     }
                 }
                 _ => {}
             }
         }
-        let limit_time = v.hist.iter().find(|e| e.stamp >= limit).map(|e| e.time).unwrap_or(v.flags.end_time);
-        let single_inc = v.cbs.iter().filter(|c| c.actor == a && c.cb == Cb::Started).count() == 1;
+        let global_limit = limit;
         for (id, (reg_stamp, reg_time, period, created)) in &timers {
-            if *reg_stamp >= limit || !single_inc {
+            let limit = v.timer_valid_until(a, *reg_stamp).min(global_limit);
+            if *reg_stamp >= limit {
                 continue;
             }
+            let limit_time = v.hist.iter().find(|e| e.stamp >= limit).map(|e| e.time).unwrap_or(v.flags.end_time);
+            let created: Vec<u64> = created.iter().filter(|(s, _)| *s < limit).map(|(_, t)| *t).collect();
+            let created = &created;
             let expect = limit_time.saturating_sub(*reg_time) / period;
             // the tick due exactly at limit_time may or may not have been created before `limit`
             let due_at_limit = (limit_time - reg_time) % period == 0 && limit_time > *reg_time;
